@@ -558,6 +558,21 @@ func runProxyCase(k *toks, o *out) {
 			for _, c := range pc.conns {
 				if c.id == cid && !c.eof {
 					c.selfClose = true
+					// the client says it is done (FIN); the proxy's receive loop sees the end of input and must close its
+					// side: wait for its FIN (what still arrives is kept), give up after 2 s
+					if tc, ok := c.c.(*net.TCPConn); ok {
+						tc.CloseWrite()
+						deadline := time.Now().Add(2 * time.Second)
+						for !c.eof && time.Now().Before(deadline) {
+							pc.pollConn(c, nil)
+							if !c.eof {
+								time.Sleep(200 * time.Microsecond)
+							}
+						}
+						if !c.eof {
+							pc.notes = append(pc.notes, "connection-left-open-after-client-fin")
+						}
+					}
 					c.c.Close()
 					c.eof = true
 					time.Sleep(3 * time.Millisecond)
